@@ -129,6 +129,7 @@ type kcfg struct {
 }
 
 type world struct {
+	sysCfg *system.Config // the configuration the kernel was built with
 	cfg     kcfg
 	path    string
 	tr      *tracer
@@ -211,6 +212,7 @@ func (w *world) boot() error {
 		TaskEnqueueDelay:    time.Duration(w.cfg.TaskEnqueueDelay) * time.Millisecond,
 		SignalTimeout:       time.Duration(w.cfg.SignalTimeout) * time.Millisecond,
 	}
+	w.sysCfg = sc
 	s := system.New(w.api, w.aio, sc, mt)
 	s.AddOnRequest(t_api.ReadPromise, coroutines.ReadPromise)
 	s.AddOnRequest(t_api.SearchPromises, coroutines.SearchPromises)
@@ -341,7 +343,18 @@ func (w *world) submit(req *t_api.Request) string {
 func (w *world) tick() {
 	w.aio.now = w.now
 	w.tr.emit(M{"e": "tick", "t": w.now})
+	pre := bgState(w.sys.VerifBackground())
 	w.sys.Tick(w.now)
+	// what the tick did about the background coroutines (judged against Tick.tla)
+	w.tr.emit(M{"e": "ticked", "t": w.now, "pool": int64(w.sysCfg.CoroutineMaxSize), "st": w.sysCfg.SignalTimeout.Milliseconds(), "pre": pre, "post": bgState(w.sys.VerifBackground())})
+}
+
+func bgState(bs []system.VerifBg) []M {
+	out := []M{}
+	for _, b := range bs {
+		out = append(out, M{"name": b.Name, "last": b.Last, "running": b.Running, "inst": fmt.Sprint(b.Inst)})
+	}
+	return out
 }
 
 // pending submissions of one kind, in yield order
